@@ -21,8 +21,10 @@ else:
     patches = sorted(glob.glob(os.path.join(V, 'controls', '*.patch')))
     label = lambda p: os.path.basename(p)[:-6]
 if only:
-    patches = [p for p in patches if only in label(p)]
+    patches = [p for p in patches if any(o in label(p) for o in only.split(','))]
 PIDS = [f'C{i:02d}' for i in range(1, 21)]
+if '--pids' in args:       # --pids C03,C17  |  --pids own (the property the control was written for)
+    PIDS = args[args.index('--pids') + 1].split(',')
 
 
 def run(p):
@@ -37,7 +39,7 @@ def run(p):
                 return label(p), {'apply': 'FAILED ' + (r.stderr or r.stdout)[:200]}
         out = {}
         env = dict(os.environ, VERIF_EVIDENCE_DIR=os.path.join(d, 'ev'))
-        for pid in PIDS:
+        for pid in ([label(p)[:3]] if PIDS == ['own'] else PIDS):
             c = subprocess.run([os.path.join(V, 'check'), pid, '--repo', root, '--tier', 'quick'], capture_output=True, text=True, env=env)
             if c.returncode != 0:
                 lines = [l.strip() for l in c.stdout.splitlines() if 'violated: rule' in l or 'ANALYSIS-ERROR' in l or l.strip().startswith('reason:') or l.strip().startswith('obligation:')]
@@ -47,7 +49,7 @@ def run(p):
         shutil.rmtree(d, ignore_errors=True)
 
 
-with ThreadPoolExecutor(8) as ex:
+with ThreadPoolExecutor(14) as ex:
     res = list(ex.map(run, patches))
 bad = 0
 for name, out in res:
@@ -61,6 +63,6 @@ for name, out in res:
             for l in o['lines']:
                 print(f'    [{pid} exit {o["exit"]}] {l[:260]}')
     else:
-        print(f'== {name}: silent (20 checks)')
+        print(f'== {name}: silent')
 print(f'{len(res)} controls, {bad} with alarms')
 sys.exit(1 if bad else 0)
